@@ -196,17 +196,84 @@ def economy(draw, zones=(1, 3), horizon=(3, 5), want_cross=None, gold=True, fede
                                       'residual_explicit': draw(st.booleans())})
             if a[0] != b[0]:
                 need_ext = True
+    # 'end': the external sector is created last of all, after every sector has been declared and wired
     if need_ext:
-        spec['external'] = draw(st.sampled_from(['first', 'middle', 'last']))
-    elif draw(gen.chance(1, 5)):
-        spec['external'] = draw(st.sampled_from(['first', 'last']))    # unused external sector
+        spec['external'] = draw(st.sampled_from(['first', 'middle', 'last', 'end']))
+    elif draw(gen.chance(1, 4)):
+        spec['external'] = draw(st.sampled_from(['end', 'first', 'last', 'end']))    # unused external sector
     if spec['external'] != 'none':
         for z in spec['zones']:
             if draw(gen.chance(3, 4)):
                 spec['xr'][z['currency']] = draw(path(K, 50, 300))
+    # income exclusions registered by the user after the sectors exist ("declare everything, then customise"): the
+    # government's or the firm's purchases are not to count in its income measure INC
+    spec['user_exclusions'] = []
+    if draw(gen.chance(1, 3)):
+        for zi, z in enumerate(spec['zones']):
+            for ci, c in enumerate(z['countries']):
+                if c['hh'] and c['bus'] is not None and draw(st.booleans()):
+                    spec['user_exclusions'].append([zi, ci, 'bus', 'labour'])
+                if c['gov'] is not None and c['gov']['kind'] == 'consolidated' and z['kind'] == 'single' and draw(st.booleans()):
+                    spec['user_exclusions'].append([zi, ci, 'gov', 'goods'])
+    # read-only queries issued while the model is being put together (position = number of sector declarations made so
+    # far, or 'end' = after all wiring): listing / looking up sectors, debug dumps.  They must not change anything.
+    spec['probes'] = []
+    for _ in range(draw(st.sampled_from([0, 0, 1, 2, 3]))):
+        kind = draw(st.sampled_from(PROBE_KINDS))
+        at = draw(st.sampled_from(['end', 1, 2, 3, 4, 5, 6, 8, 0, 'end']))
+        if kind == 'loginfo' and spec['external'] == 'end':
+            at = 'end'      # (a debug dump fixes the full codes; names requested later would go stale when EXT is added)
+        spec['probes'].append({'at': at, 'kind': kind})
+    if spec['external'] == 'end' and draw(gen.chance(1, 2)):
+        # debug dump (which assigns full codes) while the external sector - one more "country" - does not exist yet
+        spec['probes'].append({'at': 'end', 'kind': 'loginfo'})
     # an imported-goods supplier must be able to serve several markets when it is a multi-output firm; plain firms are
     # also allowed (the market then creates the supply variable itself)
     return spec
+
+
+PROBE_KINDS = ['zone-sectors', 'zone-lookup', 'model-sectors', 'country-lookup', 'model-lookup', 'dump', 'loginfo',
+               'zone-sectors', 'zone-lookup', 'shared-zone']
+
+
+def run_probe(kind, mod, out, allow_loginfo=True):
+    """One read-only query through the public API.  Lookups of things that do not exist (yet) raise by design: ignored."""
+    secs = [out.sectors[k] for k in sorted(out.sectors)]
+    codes = [s.Code for s in secs] or ['HH']
+    try:
+        if kind == 'zone-sectors':
+            for cz in mod.CurrencyZoneList:
+                cz.GetSectors()
+        elif kind == 'zone-lookup':
+            for cz in mod.CurrencyZoneList:
+                for code in codes[:2]:
+                    try:
+                        cz.LookupSector(code)
+                    except Exception:
+                        pass
+        elif kind == 'model-sectors':
+            mod.GetSectors()
+        elif kind == 'country-lookup':
+            for c in mod.CountryList:
+                for code in codes[:2]:
+                    if code in c:
+                        c.LookupSector(code)
+        elif kind == 'model-lookup':
+            for code in codes[:2]:
+                try:
+                    mod.LookupSector(code)
+                except Exception:
+                    pass
+        elif kind == 'dump':
+            mod.DumpEquations()
+        elif kind == 'shared-zone':
+            if len(secs) >= 2:
+                secs[0].IsSharedCurrencyZone(secs[-1])
+                secs[-1].ShareParent(secs[0])
+        elif kind == 'loginfo' and allow_loginfo:
+            mod.LogInfo()
+    except Exception:
+        pass
 
 
 # --------------------------------------------------------------------------------------------------
@@ -260,7 +327,8 @@ def build(spec, order_seed=None, maxtime=0, run=True, desc=None, rename=None, in
             ExternalSector(mod)
 
     try:
-        _construct(spec, out, mod, zsel, nm, dsc, make_external, order_seed, hooks)
+        _construct(spec, out, mod, zsel, nm, dsc, make_external, order_seed, hooks,
+                   allow_loginfo=(into is None and zones_subset is None))
     except Exception as ex:       # a constructor or wiring call refused the model
         out.error = ex
         out.stage = 'construction'
@@ -278,7 +346,7 @@ def build(spec, order_seed=None, maxtime=0, run=True, desc=None, rename=None, in
     return out
 
 
-def _construct(spec, out, mod, zsel, nm, dsc, make_external, order_seed, hooks):
+def _construct(spec, out, mod, zsel, nm, dsc, make_external, order_seed, hooks, allow_loginfo=True):
     from sfc_models.models import Model, Country, Region
     from sfc_models.sector import Market
     from sfc_models.sector_definitions import (Household, HouseholdWithExpectations, Capitalists,
@@ -419,6 +487,9 @@ def _construct(spec, out, mod, zsel, nm, dsc, make_external, order_seed, hooks):
     seq = []
     keys = list(order_seed) if order_seed is not None else None
     step = 0
+    for pr in spec.get('probes', []):
+        if pr['at'] == 0:
+            run_probe(pr['kind'], mod, out, allow_loginfo)
     while pending:
         ready = [d for d in pending if all(dep in done for dep in d[1])]
         if keys is None:
@@ -430,6 +501,9 @@ def _construct(spec, out, mod, zsel, nm, dsc, make_external, order_seed, hooks):
         S[pick[0]] = pick[2]()
         done.add(pick[0])
         seq.append(pick[0])
+        for pr in spec.get('probes', []):
+            if pr['at'] == len(seq):
+                run_probe(pr['kind'], mod, out, allow_loginfo)
     out.decl_order = seq
 
     # ---- post-declaration wiring, fixed order
@@ -493,6 +567,11 @@ def _construct(spec, out, mod, zsel, nm, dsc, make_external, order_seed, hooks):
                         S[(zi, ci, 'hh%d' % hi)].GenerateAssetWeighting(arg, moncode)
             if c0.get('bonds') is not None:
                 S[(zi, 0, 'bonds')].SetExogenous('r', '[' + ', '.join(c0['bonds']['r']) + ']')
+        # user-registered income exclusions
+        for ez, ec, role, what in spec.get('user_exclusions', []):
+            if ez == zi and (ez, ec, role) in S:
+                cc = zone['countries'][ec]
+                mod.AddCashFlowIncomeExclusion(S[(ez, ec, role)], 'DEM_' + nm(ez, ec, cc[what]))
         # initial stocks
         for ci, c in enumerate(zone['countries']):
             for hi, h in enumerate(c['hh']):
@@ -523,12 +602,21 @@ def _construct(spec, out, mod, zsel, nm, dsc, make_external, order_seed, hooks):
             if spec['zones'][b[0]]['countries'][b[1]]['bus']['kind'] == 'multi':
                 foreign.AddMarket(market)
     # ---- exchange rates
-    if mod.ExternalSector is not None:
+    def set_rates():
         for cur, vals in spec['xr'].items():
             if any(spec['zones'][zi]['currency'] == cur for zi in zsel):
                 mod.ExternalSector['XR'].SetExogenous(cur, '[' + ', '.join(vals) + ']')
+
+    if mod.ExternalSector is not None:
+        set_rates()
     if hooks is not None:
         hooks(out)
+    for pr in spec.get('probes', []):
+        if pr['at'] == 'end' or (isinstance(pr['at'], int) and pr['at'] > len(seq)):
+            run_probe(pr['kind'], mod, out, allow_loginfo)
+    if spec['external'] == 'end' and mod.ExternalSector is None:
+        make_external()
+        set_rates()
 
 
 def zone_F_names(built, zi_list=None):
